@@ -23,7 +23,7 @@ LEVEL = "fault_enumeration"
 VERSION = 1
 RULE = (
     "one problem = corpus project x seeded (kind: calibrate / optimize / reconcile; adjustables, bounds, measurables over single years or ranges with or without population selection, "
-    "total-spend constraint, step size dt, iteration budget, simulated time budget, clock faults, optimiser seed); the problem is executed fault-free once and then once per crash point k=1..N "
+    "total-spend constraint, step size dt, iteration budget, simulated time budget, clock faults, optimiser seed, one Optimization object used before from another starting allocation); the problem is executed fault-free once and then once per crash point k=1..N "
     "(exception at the k-th simulation, kinds InjectedFault / BadInitialization / MemoryError / KeyboardInterrupt); evaluations = executions; distinct = distinct (kind, project, problem hash, exit reason or crash ordinal+kind); "
     "non-trivial = the optimiser took at least 2 evaluations (or the crash hit an evaluation) and all oracles were evaluated"
 )
